@@ -77,7 +77,7 @@ def run(R):
     R.rule("C12.iter", "the iterated types are vec::IntoIter<BufReader<File>> and io::Lines<BufReader<File>> with no adapter in between; "
                        "the readers are built in argument order")
     for name in (L.FILE_EXEC, L.JOIN_EXEC):
-        f = R.need_fn(name)
+        f = L.exec_view(R, name)
         short_name = f.spath.split("::")[-2] + "::" + f.spath.split("::")[-1]
         lp = _line_loop(R, f)
         if lp is None:
@@ -91,7 +91,9 @@ def run(R):
             R.violation("C12.iter", short_name + "|line-source", "the line iterator %s: %s" % (ity[:160], bad_src), [lp.next.loc()])
         else:
             R.ok("C12.iter", short_name + "|line-source", ity[:120], lp.next.loc())
-        ad = [c for c in f.calls if L.ADAPTERS.search(short(c.name))]
+        # adapters applied to the readers / line iterators themselves (an adapter over result rows is none of C12's business)
+        ad = [c for c in f.calls if L.ADAPTERS.search(short(c.name)) and
+              re.search(r"std::io::Lines<|std::io::buffered::bufreader::BufReader<|std::fs::File|FollowFileIterator", " ".join(c.targs + (c.func.get("res_targs") or [])))]
         if ad:
             for c in ad:
                 R.violation("C12.iter", short_name + "|adapter|" + short(c.name).split("::")[-1],
@@ -135,7 +137,7 @@ def run(R):
     else:
         R.violation("C12.iter", "with_output_printer|shape", "unrecognised construction of the reader list: %s" % names, [wf.loc()])
     # outer loop over the readers
-    f = R.need_fn(L.FILE_EXEC)
+    f = L.exec_view(R, L.FILE_EXEC)
     outer = [l for l in L.input_loops(f) if re.search(L.READERS_NEXT, short(l.next.name))]
     if len(outer) == 1 and (outer[0].next.func.get("res_targs") or [""])[0] == BUFREADER_FILE:
         R.ok("C12.iter", "FileExecutor::execute|file-loop", "for reader in readers.into_iter()", outer[0].next.loc())
